@@ -31,13 +31,13 @@ use swc::{
 use swc_common::{
     comments::Comments,
     errors::{ColorConfig, Handler},
-    FileName, FilePathMapping, SourceFile,
+    FileName, FilePathMapping, SourceFile, Span, DUMMY_SP,
 };
 use swc_ecma_ast::{EsVersion, Program, Stmt};
 
 use std::fmt;
 use swc_ecma_parser::{EsSyntax, Syntax};
-use swc_ecma_visit::VisitMutWith;
+use swc_ecma_visit::{VisitMut, VisitMutWith};
 
 const SOURCE_MAP_URL: &str = "# sourceMappingURL=";
 
@@ -370,11 +370,21 @@ pub fn generate_prefix_stmts(csi_methods: &CsiMethods) -> Vec<Stmt> {
         parse_js(&source_file, handler, &compiler)
     });
 
-    if let Ok(Program::Script(script)) = program_result {
+    if let Ok(Program::Script(mut script)) = program_result {
+        // the positions of the prefix code belong to the inline template, not to the file being
+        // rewritten: without spans no (bogus) source map entries are emitted for it
+        script.visit_mut_with(&mut SpanRemover {});
         return script.body;
     }
 
     Vec::new()
+}
+
+struct SpanRemover {}
+impl VisitMut for SpanRemover {
+    fn visit_mut_span(&mut self, span: &mut Span) {
+        *span = DUMMY_SP;
+    }
 }
 
 #[cfg(test)]
